@@ -192,7 +192,9 @@ Definition class_refine_failures (lc sc : cls) : list failure :=
                       | Some s => if always_present s then [] else [FRequired id (sname s')]
                       | None => [FRequired id (sname s')]
                       end) (cslots sc) ++
-  flat_map (fun ik => if existsb (constr_eqb (snd ik)) (ccons lc) then [] else [FConstraint id (fst ik)])
+  (* CSkipBaseCheck records that a library override omits the base check; it constrains nothing *)
+  flat_map (fun ik => if existsb (constr_eqb (snd ik)) (ccons lc) || match snd ik with CSkipBaseCheck => true | _ => false end
+                      then [] else [FConstraint id (fst ik)])
            (combine (seq 0 (List.length (ccons sc))) (ccons sc)).
 
 Definition class_accept_failures (sc lc : cls) : list failure :=
